@@ -125,7 +125,7 @@ def k2(ctx, rep, T):
     orig = flds.get('original')
     ren = flds.get('renamed')
     otxt = json.dumps(orig)
-    ok_o = pr.raw_prefix_removed(orig, params[0])
+    ok_o = pr.raw_prefix_removed(orig, params[0], ctx)
     rep.check(ok_o, 'K2', 'original:raw-prefix-removed', 'original = ident.to_string() with r# removed', f'get_ident: Id.original is not the identifier with the raw prefix removed: {vt.show(orig)[:120]}', site)
     # renamed: serde(rename) if present else rename_all_to_case(original, rule) — decided by partial evaluation of the
     # value of Id.renamed under the two outcomes of serde_rename(<attrs parameter>), whatever the control-flow idiom
